@@ -801,6 +801,173 @@ fn run_mgr(out: &mut Out, seed: u64, c: u64, thorough: bool) {
     }
 }
 
+// ---------- Cypher layer: the same queries with and without the hierarchy index ----------
+
+fn canon_rows(engine: &samyama::query::QueryEngine, store: &GraphStore, q: &str) -> String {
+    match engine.execute(q, store) {
+        Ok(batch) => {
+            let mut rows: Vec<String> = batch
+                .records
+                .iter()
+                .map(|rec| {
+                    batch
+                        .columns
+                        .iter()
+                        .map(|c| match rec.get(c) {
+                            // Property(Null) and Null are the same null to the caller; Integer 6 and Float 6.0 are not
+                            None | Some(samyama::query::executor::record::Value::Null) => "Null".to_string(),
+                            Some(samyama::query::executor::record::Value::Property(p)) => format!("{:?}", p),
+                            Some(v) => format!("{:?}", v),
+                        })
+                        .collect::<Vec<_>>()
+                        .join(",")
+                })
+                .collect();
+            rows.sort();
+            rows.join(";")
+        }
+        Err(e) => format!("ERR {}", e.to_string().chars().take(60).collect::<String>()),
+    }
+}
+
+/// Two stores receive the same Cypher writes; one has `CREATE HIERARCHY INDEX`, the other answers the
+/// same `*0..` queries by variable-length expansion. Their rows must be equal after every step
+/// (and, where the index is usable, the planner's rewrite is what answers on the indexed side).
+fn run_cypher(out: &mut Out, seed: u64, c: u64) {
+    let idx_no = out.next_index();
+    if !out.wants(idx_no) {
+        out.skip();
+        return;
+    }
+    let mut r = Rng::for_case(seed ^ 0xC1F, c);
+    let n = r.range(2, 9) as usize;
+    let tree = c % 3 != 2;
+    let edges = if tree { gen_tree(n, &mut r) } else { gen_near_tree(n, &mut r, 1 + n / 3) };
+    if !(0..n as u32).all(|v| edges.iter().filter(|e| e.0 == v).count() <= 1) {
+        out.count("cypher_dag_histories");
+    }
+    let engine = samyama::query::QueryEngine::new();
+    let mut with = GraphStore::new();
+    let mut without = GraphStore::new();
+    let mut human = format!("cypher n={n} edges={:?}", edges);
+    let mut script: Vec<String> = Vec::new();
+    for i in 0..n {
+        let q = match rand_val(&mut r).map(|v| v % 1000) {
+            Some(v) => format!("CREATE (:C {{code: 'n{i}', units: {v}}})"),
+            None => format!("CREATE (:C {{code: 'n{i}'}})"),
+        };
+        script.push(q);
+    }
+    for &(ch, p) in &edges {
+        script.push(format!("MATCH (a:C {{code: 'n{ch}'}}), (b:C {{code: 'n{p}'}}) CREATE (a)-[:IS_A]->(b)"));
+    }
+    let mut bad: Option<String> = None;
+    let mut known_bad: Option<String> = None;
+    let mut apply = |q: &str, with: &mut GraphStore, without: &mut GraphStore, bad: &mut Option<String>| {
+        let a = engine.execute_mut(q, with, "default").map(|_| ()).map_err(|e| e.to_string());
+        let b = engine.execute_mut(q, without, "default").map(|_| ()).map_err(|e| e.to_string());
+        if a.is_ok() != b.is_ok() && bad.is_none() {
+            *bad = Some(format!("write {q}: indexed store {a:?}, plain store {b:?}"));
+        }
+    };
+    for q in &script {
+        apply(q, &mut with, &mut without, &mut bad);
+    }
+    let aggs = if r.chance(1, 2) { "sum, min, max, count" } else { "sum, count" };
+    let create = format!("CREATE HIERARCHY INDEX h ON ()-[:IS_A]->() MEASURE units AGGREGATE {aggs}");
+    if let Err(e) = engine.execute_mut(&create, &mut with, "default") {
+        bad = Some(format!("{create}: {e}"));
+    }
+    human.push_str(&format!("; {create}"));
+    let queries = |root: usize| -> Vec<String> {
+        let pat = format!("MATCH (d)-[:IS_A*0..]->(r:C {{code: 'n{root}'}})");
+        vec![
+            format!("{pat} RETURN sum(d.units) AS v"),
+            format!("{pat} RETURN min(d.units) AS v"),
+            format!("{pat} RETURN max(d.units) AS v"),
+            format!("{pat} RETURN count(d) AS v"),
+            format!("{pat} RETURN d.code AS v"),
+            format!("MATCH (r:C {{code: 'n{root}'}})<-[:IS_A*0..]-(d) RETURN sum(d.units) AS v"),
+        ]
+    };
+    let mut compare = |with: &GraphStore, without: &GraphStore, what: &str, removed_pending: bool, bad: &mut Option<String>, known_bad: &mut Option<String>, out: &mut Out| {
+        for root in 0..n {
+            for q in queries(root) {
+                let fired = samyama::query::parse_query(&q)
+                    .ok()
+                    .and_then(|pq| samyama::query::executor::hierarchy_detector::detect(&pq, with))
+                    .is_some();
+                if fired {
+                    out.count("cypher_rewrites_fired");
+                }
+                let a = canon_rows(&engine, with, &q);
+                let b = canon_rows(&engine, without, &q);
+                out.count("cypher_comparisons");
+                if a != b {
+                    let msg = format!("after {what}: `{q}` with the index (rewrite fired: {fired}) = [{a}], by variable-length expansion = [{b}]");
+                    if removed_pending {
+                        if known_bad.is_none() {
+                            *known_bad = Some(msg);
+                        }
+                    } else if bad.is_none() {
+                        *bad = Some(msg);
+                    }
+                }
+            }
+        }
+    };
+    compare(&with, &without, "create index", false, &mut bad, &mut known_bad, out);
+    // a REMOVE of the measure property not yet followed by a rebuild (known finding)
+    let mut removed_pending = false;
+    let steps = r.range(2, 5);
+    for _ in 0..steps {
+        let q = match r.below(7) {
+            6 => {
+                let k = r.below(n as u64);
+                removed_pending = true;
+                format!("MATCH (x:C {{code: 'n{k}'}}) REMOVE x.units")
+            }
+            0 | 1 | 2 => {
+                let k = r.below(n as u64);
+                match rand_val(&mut r).map(|v| v % 1000) {
+                    Some(v) => format!("MATCH (x:C {{code: 'n{k}'}}) SET x.units = {v}"),
+                    None => format!("MATCH (x:C {{code: 'n{k}'}}) SET x.units = null"),
+                }
+            }
+            3 => {
+                // new leaf under an existing node: a covering-edge write, the index goes stale
+                let k = r.below(n as u64);
+                format!("MATCH (b:C {{code: 'n{k}'}}) CREATE (:C {{code: 'x{}', units: 3}})-[:IS_A]->(b)", r.below(1000))
+            }
+            4 => "REBUILD HIERARCHY INDEX h".to_string(),
+            _ => {
+                let k = r.below(n as u64);
+                format!("MATCH (x:C {{code: 'n{k}'}}) SET x.colour = 1")
+            }
+        };
+        human.push_str(&format!("; {q}"));
+        if q.starts_with("REBUILD") {
+            removed_pending = false;
+            if let Err(e) = engine.execute_mut(&q, &mut with, "default") {
+                if bad.is_none() {
+                    bad = Some(format!("{q}: {e}"));
+                }
+            }
+        } else {
+            apply(&q, &mut with, &mut without, &mut bad);
+        }
+        compare(&with, &without, &q, removed_pending, &mut bad, &mut known_bad, out);
+    }
+    out.count("cypher_histories");
+    let i = out.case("CDirect 1 [] 0 (BOk 0) []".to_string(), human.clone(), true);
+    if let Some(b) = bad {
+        out.fail(i, &human, &b, None);
+    } else if let Some(b) = known_bad {
+        out.count("known_remove_cases");
+        out.fail(i, &human, &b, Some(KNOWN_REMOVE));
+    }
+}
+
 fn main() {
     let args = parse_args();
     if std::env::var("C28_LOUD").is_err() {
@@ -810,8 +977,11 @@ fn main() {
     out.rule = "exhaustive: every labelled DAG on <=4 nodes (thorough: <=5) under auto / forced chain / forced near-tree / \
                 forced nested-set, all (x,y) subsumes, all descendants, counts, all LCAs, all roll-ups (sum/count/min/max) \
                 before and after update_measure; random trees, near-trees and layered low-width DAGs up to 60 (thorough 400) \
-                nodes with random update_measure sequences; manager histories (covering-edge writes, measure writes, rebuilds) \
-                on a GraphStore. Non-trivial = more than one node; distinct by case text."
+                nodes with random update_measure sequences; manager histories (covering-edge writes, measure writes, property \
+                removals, label-restricted measures, rebuilds) on a GraphStore; Cypher histories on twin stores (one with CREATE \
+                HIERARCHY INDEX, one without): *0.. roll-up / descendant queries must return the same rows with the rewritten plan \
+                and by variable-length expansion after every write (these cases carry a placeholder Coq term; they are checked on \
+                the Rust side only). Non-trivial = more than one node; distinct by case text."
         .to_string();
     let seed = args.seed;
 
@@ -904,6 +1074,11 @@ fn main() {
     let nm = if args.thorough { 1500 } else { 150 };
     for k in 0..nm {
         run_mgr(&mut out, seed, k, args.thorough);
+    }
+    // 5. Cypher layer
+    let nc = if args.thorough { 600 } else { 60 };
+    for k in 0..nc {
+        run_cypher(&mut out, seed, k);
     }
     out.known.push(replay_known_remove());
     out.finish();
